@@ -20,11 +20,14 @@ WORLDT = {"keys": ["a", "b", "c", "d", "s"], "init": 1, "authors": ["a", "b", "c
 QUICK = [("MCIdentity_q.cfg", WORLD4, "4 delegates + stranger, <=3 changes, 1 action each, one fork/join", True),
          ("MCIdentity_q2.cfg", WORLD4, "4 delegates + stranger, <=2 changes, <=2 actions each, one fork", False),
          ("MCIdentity_q3.cfg", WORLD2, "2 delegates + stranger, <=3 changes, 1 action each, one fork/join (adoption, then a smaller delegate set)", True)]
-THOROUGH = QUICK + [
+# thorough: t0 contains the quick instance q; the two big instances are model-checked completely and
+# a sample of their states (one in EmitEvery) is replayed
+THOROUGH = QUICK[1:] + [
     ("MCIdentity_t0.cfg", WORLD4, "4 delegates + stranger, <=3 changes, 1 action each, one fork/join, two proposable documents", True),
-    ("MCIdentity_t.cfg", WORLD2, "2 delegates + stranger, <=4 changes, 1 action each, one fork/join (delegate-set changes)", True),
-    ("MCIdentity_t2.cfg", WORLD4, "4 delegates + stranger, <=4 changes, 1 action each, one fork/join", True),
+    ("MCIdentity_t.cfg", WORLD2, "2 delegates + stranger, <=4 changes, 1 action each, one fork/join, three proposable documents (delegate-set changes); 1 state in 100 replayed", True),
+    ("MCIdentity_t2.cfg", WORLD4, "4 delegates + stranger, <=4 changes, 1 action each, one fork/join; 1 state in 40 replayed", True),
 ]
+SAMPLED = {"MCIdentity_t.cfg", "MCIdentity_t2.cfg"}
 PROPS = "TypeOK ActiveIsChildOfCurrent AcceptedChain CurrentAccepted HeadsBacked VerdictsValid; C04_Majority C04_Strangers C04_AcceptedStable RejectedLeavesNoTrace"
 
 RULE = ("cases = reachable states of MCIdentity with a complete history (one witness history per object state and per "
@@ -143,6 +146,8 @@ def run(ctx):
         # sample of the rest
         if thorough:
             chosen = cases
+            if cfg in SAMPLED:
+                all_exhaustive = False
         else:
             hot = [c for c in cases if any(e["out"] == "rejected" for e in c["log"]) and any(e["step"] == "forky" for e in c["log"])
                    and c["log"][-1]["out"] == "applied"]
